@@ -202,59 +202,70 @@ replay_proof! {
     }
 }
 
-/// zero-filled tail of z bytes after three complete records
-fn zero_tail(z: usize, truncate: Option<bool>) {
-    let s = sym();
-    let ends = image(&s, 2);
-    // overwrite the last record's area (and beyond) with zeros
+/// zero-filled tail of z bytes after two complete records. `concrete`: the
+/// record values are constants (with the real CRC every checksum comparison
+/// over symbolic bytes is a symbolic branch; the subject here is the tail).
+fn zero_tail(z: usize, truncate: Option<bool>, concrete: bool) {
+    unsafe { gfs::FORCE_SLOT = Some(0) };
+    let c: Id = if concrete { (7, 9) } else { kani::any() };
+    let mut im = Img::new(0, 0);
+    let e0 = im.state(None, None, None, None, None);
+    let e1 = im.commit(c);
+    // the tail: z zero bytes
     let mut i = 0;
     while i < 24 {
         if i < z {
-            gfs::bytes(0)[ends[2] + i] = 0;
+            im.put(0);
         }
         i += 1;
     }
-    gfs::fs().files[0].len = (ends[2] + z) as u64;
+    im.commit_len();
     reset_counters();
     let on = truncate.unwrap_or(true);
     let r = Chunk::<RTypes>::open(replay_config(truncate), ChunkId(0));
     match r {
-        Ok((c, recs)) => {
+        Ok((ch, recs)) => {
             assert!(on, "zero tail accepted although truncation is disabled");
-            check_prefix(&s, &c, &recs, &ends, 3);
+            assert!(recs.len() == 2 && ch.global_offsets.len() == 3 && ch.global_offsets[1] == e0 as u64 && ch.global_offsets[2] == e1 as u64, "not exactly the complete records recovered");
+            match &recs[1] {
+                WALRecord::Commit(id) => assert!(*id == c, "commit id altered"),
+                _ => assert!(false, "record 1 is not the commit"),
+            }
             let f = &gfs::fs().files[0];
-            assert!(f.len == ends[2] as u64 && f.n_set_len == 1 && f.n_sync_ok == 1, "zero tail not cut back durably");
-            assert!(c.truncated == Some((ends[2] + z) as u64));
+            assert!(f.len == e1 as u64 && f.n_set_len == 1 && f.n_sync_ok == 1, "zero tail not cut back durably");
+            assert!(ch.truncated == Some((e1 + z) as u64));
             kani::cover!(true, "zero tail truncated");
-            core::mem::forget(c);
+            core::mem::forget(ch);
             core::mem::forget(recs);
         }
         Err(e) => {
             core::mem::forget(e);
             assert!(!on, "a zero-filled tail made open fail although truncation is enabled");
             let f = &gfs::fs().files[0];
-            assert!(f.n_set_len == 0 && f.n_write == 0 && f.len == (ends[2] + z) as u64, "refused open modified the file");
+            assert!(f.n_set_len == 0 && f.n_write == 0 && f.len == (e1 + z) as u64, "refused open modified the file");
             kani::cover!(true, "zero tail refused, file untouched");
         }
     }
 }
 
 // tail lengths: shorter than a type word, exactly one, shorter than the
-// shortest record, longer than it (decodes as SaveVote((0,0)) with checksum 0:
-// with real CRC the checksum of 6 zero bytes is not 0, so this is "damaged";
-// with crc=off it would be a valid record - hence crc = real here)
-// @harness name=c10_zero_tail_3 prop=C10 tier=quick timeout=900 fs=128 allow_unsat=refused
-replay_proof! { unwind = 26, crc = real, fn c10_zero_tail_3() { zero_tail(3, None); } }
-// @harness name=c10_zero_tail_4 prop=C10 tier=thorough timeout=900 fs=128 allow_unsat=refused
-replay_proof! { unwind = 26, crc = real, fn c10_zero_tail_4() { zero_tail(4, None); } }
-// @harness name=c10_zero_tail_9 prop=C10 tier=quick timeout=900 fs=128 allow_unsat=refused
-replay_proof! { unwind = 26, crc = real, fn c10_zero_tail_9() { zero_tail(9, None); } }
+// shortest record (the decoder runs out of bytes: checksum values play no
+// part, crc = off, symbolic record values) - and longer than a record: 20
+// zero bytes decode as SaveVote((0,0)) with checksum field 0, which only the
+// real CRC rejects (crc32 of six zero bytes is not 0): crc = real, concrete
+// record values
+// @harness name=c10_zero_tail_3 prop=C10 tier=quick timeout=900 fs=512 allow_unsat=refused
+replay_proof! { unwind = 26, crc = off, fn c10_zero_tail_3() { zero_tail(3, None, false); } }
+// @harness name=c10_zero_tail_4 prop=C10 tier=thorough timeout=900 fs=512 allow_unsat=refused
+replay_proof! { unwind = 26, crc = off, fn c10_zero_tail_4() { zero_tail(4, None, false); } }
+// @harness name=c10_zero_tail_9 prop=C10 tier=quick timeout=900 fs=512 allow_unsat=refused
+replay_proof! { unwind = 26, crc = off, fn c10_zero_tail_9() { zero_tail(9, None, false); } }
+// @harness name=c10_zero_tail_9_off prop=C10 tier=thorough timeout=900 fs=512 allow_unsat=truncated
+replay_proof! { unwind = 26, crc = off, fn c10_zero_tail_9_off() { zero_tail(9, Some(false), false); } }
 // @harness name=c10_zero_tail_20 prop=C10 tier=quick timeout=1200 fs=128 allow_unsat=refused
-replay_proof! { unwind = 26, crc = real, fn c10_zero_tail_20() { zero_tail(20, Some(true)); } }
+replay_proof! { unwind = 26, crc = real, fn c10_zero_tail_20() { zero_tail(20, Some(true), true); } }
 // @harness name=c10_zero_tail_20_off prop=C10 tier=quick timeout=1200 fs=128 allow_unsat=truncated
-replay_proof! { unwind = 26, crc = real, fn c10_zero_tail_20_off() { zero_tail(20, Some(false)); } }
-// @harness name=c10_zero_tail_9_off prop=C10 tier=thorough timeout=900 fs=128 allow_unsat=truncated
-replay_proof! { unwind = 26, crc = real, fn c10_zero_tail_9_off() { zero_tail(9, Some(false)); } }
+replay_proof! { unwind = 26, crc = real, fn c10_zero_tail_20_off() { zero_tail(20, Some(false), true); } }
 
 /// truncation disabled: any cut makes open fail and leaves the file untouched
 // @harness name=c10_cut_off prop=C10 tier=quick timeout=900 fs=512
@@ -368,9 +379,10 @@ replay_proof! { unwind = 16, crc = real, fn c09_flip_type() { flip_range(2, 2, 3
 // TruncateAfter(None) becomes 1, so an id is expected) ends in UnexpectedEof,
 // which recovery takes for a torn tail: the record is silently cut away and
 // open succeeds.
-// @harness name=c09_known_eof_absorbed prop=C09 tier=quick timeout=1500 fs=128 kind=known
+// (checksum values play no part: the decoder runs out of bytes before it reaches the checksum)
+// @harness name=c09_known_eof_absorbed prop=C09 tier=quick timeout=1500 fs=512 kind=known
 replay_proof! {
-    unwind = 16, crc = real,
+    unwind = 16, crc = off,
     fn c09_known_eof_absorbed() {
         let s = sym();
         unsafe { gfs::FORCE_SLOT = Some(0) };
